@@ -581,15 +581,36 @@ class Runner:
     def run(self, hists):
         """executes on worker and model; a second pass reads back every returned offset"""
         all_lines = [l for h in hists for l in h['lines']]
-        w = self.c.worker.run(all_lines)
-        m = self.c.model.run(all_lines)
         self.c.evaluations += len(all_lines)
-        pos = 0
-        for h in hists:
-            n = len(h['lines'])
-            h['w'] = w[pos:pos + n]
-            h['m'] = m[pos:pos + n]
-            pos += n
+        # histories are independent (each starts in a fresh directory and removes it): large runs are spread over several worker
+        # and model processes, so that no single process run comes near its time limit
+        K = 1 if len(hists) < 64 else min(14, len(hists) // 16)
+        if K == 1:
+            w = self.c.worker.run(all_lines)
+            m = self.c.model.run(all_lines)
+            pos = 0
+            for h in hists:
+                n = len(h['lines'])
+                h['w'] = w[pos:pos + n]
+                h['m'] = m[pos:pos + n]
+                pos += n
+            return hists
+        from concurrent.futures import ThreadPoolExecutor
+        from .common import Proc
+        groups = [hists[i::K] for i in range(K)]
+
+        def one(g):
+            lines = [l for h in g for l in h['lines']]
+            w = Proc(self.c.worker.exe, timeout=1800).run(lines)
+            m = Proc(self.c.model.exe, big_stack=True, timeout=1800).run(lines)
+            pos = 0
+            for h in g:
+                n = len(h['lines'])
+                h['w'] = w[pos:pos + n]
+                h['m'] = m[pos:pos + n]
+                pos += n
+        with ThreadPoolExecutor(K) as ex:
+            list(ex.map(one, groups))
         return hists
 
 
